@@ -14,7 +14,8 @@ Program items (JSON lists):
         "gen:next|close|throw"  a generator (threads) / async generator (tasks) that enters the block and yields; it is
                        resumed to its end / closed / given an exception by the context that started it
      `raises`: False | True (the body ends by raising Boom) | "fail:<how>" (the body ends with an operation physt refuses
-     in every mode; physt's own exception leaves the block).  The exception is caught outside the outermost block.
+     in every mode; physt's own exception leaves the block) | "base:<KeyboardInterrupt|SystemExit|GeneratorExit|CancelledError>"
+     (the body ends by raising an exception that is not an Exception).  The exception is caught outside the outermost block.
   ["reenter", k]         try to enter the stored manager cms[k] again (`with cm: read`), while it is entered or after it was
                          left, from any thread / task: the unchanged library refuses (a generator-based manager is
                          single-use) -- a refusal, or an entry that is left again at once, leaves the value where it was;
@@ -30,6 +31,8 @@ Program items (JSON lists):
                                                `oneg = other * (-1)`) and keep them for the rest of the run; normally inside a block
         {"slot": name, "op": .., .., "g": b}   apply one operation to (copies of) the kept operands, anywhere: typically OUTSIDE,
                                                after the block in which they were built has been left
+        {"slot": name, "op": "route", "how": <entry route>, "src": "neg"|"a", "g": b}   (stream routes) the contents of the kept
+                                               operand arrive in a NEW histogram through a reading / constructing route
      "g" (fixed by the generator with exact arithmetic on the spec, re-derived by the oracle from the contents the implementation
      reports): the step produces negative contents, so it is a gated operation -- an `arith` step of the schedule, accepted iff
      the switch is on.  Steps with g false (re-arrangements such as copy / projection / slicing of existing negative contents,
@@ -60,6 +63,8 @@ warnings.simplefilter("ignore")
 ARITH_HOWS = ["array", "negative", "negative_nan", "array_mul", "array_div", "array_sub", "negative_factor"]
 GATED = ["negative_factor", "array", "array_mul", "array_div", "array_sub", "negative"]
 FAIL_HOWS = ["hist_mul_hist", "hist_div_hist", "incompatible_add"]
+# exits that are NOT subclasses of Exception (raises = "base:<name>"): Ctrl-C, sys.exit(), a closed generator, a cancelled task
+BASE_EXITS = ["KeyboardInterrupt", "SystemExit", "GeneratorExit", "CancelledError"]
 
 
 # ---------------------------------------------------------------- programs
@@ -198,7 +203,12 @@ def do_arith(how):
 
 
 def leave_by_exception(raises):
-    """the end of a body that raises: Boom, or an operation physt refuses with and without free arithmetics"""
+    """the end of a body that raises: Boom, an operation physt refuses with and without free arithmetics, or a BaseException"""
+    if isinstance(raises, str) and raises.startswith("base:"):
+        e = {"KeyboardInterrupt": KeyboardInterrupt, "SystemExit": SystemExit, "GeneratorExit": GeneratorExit,
+             "CancelledError": asyncio.CancelledError}[raises[5:]]()
+        e._c19_expected = True
+        raise e
     if isinstance(raises, str) and raises.startswith("fail:"):
         from physt.histogram1d import Histogram1D
         how = raises[5:]
@@ -243,7 +253,7 @@ NEG_ADAPTIVE = ("ad1", "ad2")
 NEG_FILLABLE = ("h1", "h1f", "h2", "h3", "ad1", "ad2")          # fill() of a transformed class takes cartesian points
 GATED_BUILDS = ["mul_m1", "sub_2a", "imul", "div_neg", "arr_add", "arr_sub", "setter", "ctor"]
 FREE_BUILDS = ["fill_neg", "fill_n_neg"]                        # accepted by the unchanged library with the switch off as well
-GATED_NEGOPS = ("add", "sub", "mul", "div", "normalize", "setter", "ctor", "fill_neg")
+GATED_NEGOPS = ("add", "sub", "mul", "div", "normalize", "setter", "ctor", "fill_neg", "route")
 REARR_NEGOPS = ("copy", "set_dtype", "merge_bins", "projection", "slice", "index", "transpose")
 
 
@@ -288,6 +298,19 @@ def describe_negop(how):
         return "type(a)(<bins of a>, frequencies=neg.frequencies)"
     if op == "fill_neg":
         return f"x = a.copy(); x.fill(<centre of cell {how['cell']}>, weight=-{how['w']}) x{how['times']}"
+    if op == "route":
+        s = how.get("src", "neg")
+        return {"from_dict": f"type({s}).from_dict(d)  [d = {s}.to_dict() written inside the block]",
+                "create_from_dict": f"physt.io.create_from_dict(json.loads(t), ..)  [t = {s}.to_json() written inside the block]",
+                "parse_json": f"physt.io.parse_json(t)  [t = {s}.to_json() written inside the block]",
+                "load_json": f"physt.io.load_json(<scratch file holding t>)  [t = {s}.to_json() written inside the block]",
+                "coll_from_dict": f"HistogramCollection.from_dict(d)  [d = HistogramCollection(a, {s}).to_dict() written inside the block]",
+                "from_xarray": f"Histogram1D.from_xarray(ds)  [ds = {s}.to_xarray() written inside the block]",
+                "ctor_e2": f"type(a)(<bins of a>, frequencies={s}.frequencies, errors2={s}.errors2)",
+                "setter_fresh": f"x = a.copy(include_frequencies=False); x.frequencies = {s}.frequencies",
+                "calc_freq": f"Histogram1D.from_calculate_frequencies(<bin centres of a>, a.binning, weights={s}.frequencies)",
+                "facade": f"physt.h1 / h2 / h(<bin centres of a>, <edges of a>, weights={s}.frequencies)",
+                "e2_neg": "x = a.copy(); x.errors2 = neg.frequencies"}[how["how"]]
     return f"neg: {op}"
 
 
@@ -406,6 +429,9 @@ def expect_negop(how, ops):
     if op == "fill_neg":
         a = ops["a"]
         return {"neg": a["f"][how["cell"]] - fr(how["w"]) * how["times"] < 0, "keep": None}
+    if op == "route":
+        # the contents that arrive are those of the source; a negative errors2 is not "contents" of the property's clause
+        return {"neg": how["how"] not in ROUTES_UNPINNED and any(v < 0 for v in ops[how.get("src", "neg")]["f"]), "keep": None}
     return {"neg": False, "keep": None}     # re-arrangements create no new contents: never gated
 
 
@@ -495,6 +521,121 @@ def snap_hist(h):
             "shape": [int(n) for n in h.shape], "dtype": str(h.dtype), "lo": [fs(float(b[0])) for b in bins], "cls": type(h).__name__}
 
 
+# ---- entry routes (stream routes): every way by which contents REACH a histogram, fed with the contents of `neg` (or of `a`)
+# The carriers (dict, JSON text, collection dict, xarray Dataset) are written inside the block in which `neg` was built
+# (to_dict / to_json / to_xarray there) and read back anywhere.  Measured on the unchanged library (1cb81f8), for every class:
+#   refused outside / inside enable_free_arithmetics(False), accepted inside a block (they all end in the constructor or in the
+#   frequencies setter, which hold the guard): from_dict, create_from_dict, parse_json, load_json, HistogramCollection.from_dict,
+#   Histogram1D.from_xarray, the constructor with frequencies= and errors2=, the frequencies setter on a fresh histogram,
+#   from_calculate_frequencies(weights=negative), the facade h1 / h2 / h(.., weights=negative).  These are GATED (route).
+#   passed through in every mode: copy() (stream neg_state, rearr:copy); refused in every mode: the errors2 setter / errors2=
+#   with NEGATIVE values ("Cannot have negative square errors", no switch involved) -- route `e2_neg`, recorded, never judged.
+ROUTES_DOC = ["from_dict", "create_from_dict", "parse_json", "load_json", "coll_from_dict", "from_xarray"]
+ROUTES_VAL = ["ctor_e2", "setter_fresh", "calc_freq", "facade"]
+ROUTES = ROUTES_DOC + ROUTES_VAL
+ROUTES_UNPINNED = ["e2_neg"]
+ROUTES_1D_ONLY = ("coll_from_dict", "from_xarray", "calc_freq")
+ROUTE_SCRATCH = "/var/tmp/c19_route"
+_route_counter = itertools.count()
+
+
+ENABLE_ND_ARRAY_BUILD_DOCUMENT_ROUTES = False
+# unchanged library, inside `with config.enable_free_arithmetics():`  n = Histogram2D([[0,1,2],[0,1,2]], [[1,2],[3,4]]) - np.ones((2,2))
+# (any N-d class, h + array as well) has `missed` = NaN with dtype int64; n.to_dict() / n.to_json() write the NaN and
+# type(n).from_dict / parse_json / load_json / create_from_dict of that output raise ValueError("cannot convert float NaN to
+# integer") in EVERY mode, also inside the block: a document the library wrote cannot be read.  Not a matter of the switch (and not
+# of negative contents: a non-negative result does the same): kept out of the generator, reported.
+
+
+def routes_for(spec):
+    cls = spec["cls"]
+    out = ["from_dict", "create_from_dict", "parse_json", "load_json", "ctor_e2", "setter_fresh"]
+    if len(spec["shape"]) > 1 and spec["build"] in ("arr_add", "arr_sub") and not ENABLE_ND_ARRAY_BUILD_DOCUMENT_ROUTES:
+        out = ["ctor_e2", "setter_fresh"]
+    if cls in ("h1", "h1f", "ad1"):
+        out += ["coll_from_dict", "from_xarray", "calc_freq", "facade"]
+    if cls in ("h2", "h3"):
+        out += ["facade"]
+    return out
+
+
+def build_docs(ops, spec):
+    """the carriers of `a` and of `neg`, written in the context of the caller (normally: inside the block that built `neg`)"""
+    from physt.histogram_collection import HistogramCollection
+    docs = {}
+    for src in ("a", "neg"):
+        h = ops[src]
+        d = {"dict": h.to_dict(), "json": h.to_json()}
+        if spec["cls"] in ("h1", "h1f", "ad1"):
+            import physt.compat.xarray  # noqa: F401  (attaches Histogram1D.to_xarray / from_xarray)
+            other = ops["a"].copy()
+            d["coll"] = HistogramCollection(other, h, name="c19").to_dict()
+            d["xr"] = h.to_xarray()
+        docs[src] = d
+    return docs
+
+
+def apply_route(how, ops, spec, docs):
+    """contents arrive in a NEW histogram through one entry route; returns the histogram that came out"""
+    import physt
+    from physt import io as pio
+    from physt.histogram1d import Histogram1D
+    from physt.histogram_collection import HistogramCollection
+    route, src = how["how"], how.get("src", "neg")
+    h = ops[src]
+    d = docs[src]
+    if route == "from_dict":
+        return type(h).from_dict(copy.deepcopy(d["dict"]))
+    if route == "create_from_dict":
+        return pio.create_from_dict(json.loads(d["json"]), "c19")        # the parsed tree (to_json adds the version field)
+    if route == "parse_json":
+        return pio.parse_json(d["json"])
+    if route == "load_json":
+        path = f"{ROUTE_SCRATCH}_{os.getpid()}_{threading.get_ident()}_{next(_route_counter)}.json"      # removed below
+        try:
+            with open(path, "w", encoding="utf-8") as f:
+                f.write(d["json"])
+            return pio.load_json(path)
+        finally:
+            with contextlib.suppress(OSError):
+                os.remove(path)
+    if route == "coll_from_dict":
+        return HistogramCollection.from_dict(copy.deepcopy(d["coll"])).histograms[1]
+    if route == "from_xarray":
+        return Histogram1D.from_xarray(d["xr"])
+    freq = np.array(h.frequencies)
+    if route == "ctor_e2":
+        x = ops["a"]
+        binnings = [b.copy() for b in x._binnings]
+        if x.ndim == 1:
+            return type(x)(binnings[0], frequencies=freq, errors2=np.array(h.errors2))
+        kw = {"dimension": x.ndim} if spec["cls"] == "h3" else {}
+        return type(x)(binnings, frequencies=freq, errors2=np.array(h.errors2), **kw)
+    if route == "setter_fresh":
+        x = ops["a"].copy(include_frequencies=False)
+        x.frequencies = freq
+        return x
+    if route == "e2_neg":
+        x = ops["a"].copy()
+        x.errors2 = np.array(ops["neg"].frequencies)
+        return x
+    # one point per bin (its centre), weighted with the contents
+    a = ops["a"]
+    if route == "calc_freq":
+        return Histogram1D.from_calculate_frequencies(np.asarray(a.bin_centers, dtype=float), a.binning.copy(), weights=freq.astype(float))
+    if route == "facade":
+        if a.ndim == 1:
+            return physt.h1(np.asarray(a.bin_centers, dtype=float), np.asarray(a.numpy_bins, dtype=float), weights=freq.astype(float))
+        centres = [np.asarray(a.get_bin_centers(ax), dtype=float) for ax in range(a.ndim)]
+        pts = np.array(list(itertools.product(*centres)))
+        edges = [np.asarray(e, dtype=float) for e in a.numpy_bins]
+        w = freq.astype(float).ravel()
+        if a.ndim == 2:
+            return physt.h2(pts[:, 0], pts[:, 1], edges, weights=w)
+        return physt.h(pts, edges, weights=w)
+    raise RuntimeError("unknown route " + route)
+
+
 def private_build(spec):
     """the operands of a slot nobody has built (a shrunk case, another thread's slot): built with the switch SET in a throw-away
     copy of the context, which the calling context never sees"""
@@ -505,9 +646,19 @@ def private_build(spec):
     return contextvars.copy_context().run(f)
 
 
-def apply_negop(how, ops, spec, holder):
+def private_docs(ops, spec):
+    def f():
+        from physt.config import config
+        config.free_arithmetics = True
+        return build_docs(ops, spec)
+    return contextvars.copy_context().run(f)
+
+
+def apply_negop(how, ops, spec, holder, docs=None):
     from physt.histogram_collection import HistogramCollection
     op = how["op"]
+    if op == "route":
+        return apply_route(how, ops, spec, docs)
 
     def get(n):
         return ops["a"] + ops["a"] if n == "a2" else ops[n]
@@ -604,6 +755,12 @@ def neg_step(how, env):
             slots[name] = None
             return {"accepted": False, "_d": {"mk": name, "refusal": type(e).__name__}}
         slots[name] = ops
+        try:
+            with warnings.catch_warnings():
+                warnings.simplefilter("ignore")
+                env["docs"][name] = build_docs(ops, specs[name])       # written HERE: in the context that built `neg`
+        except Exception:
+            env["docs"].pop(name, None)                                 # (written privately when a route asks for them)
         return {"accepted": True, "_d": {"mk": name, "built": {k: snap_hist(v) for k, v in ops.items()}}}
     name = how["slot"]
     ops = slots.get(name)
@@ -612,12 +769,20 @@ def neg_step(how, env):
             warnings.simplefilter("ignore")
             ops = slots[name] = private_build(specs[name])
     d = {"how": how, "cls": specs[name]["cls"], "before": {k: snap_hist(v) for k, v in ops.items()}}
+    docs = None
+    if how["op"] == "route":
+        docs = env["docs"].get(name)
+        if docs is None:
+            with warnings.catch_warnings():
+                warnings.simplefilter("ignore")
+                docs = env["docs"][name] = private_docs(ops, specs[name])
+    d["flag_before"] = bool(config.free_arithmetics)
     holder = {}
     res = None
     try:
         with warnings.catch_warnings():
             warnings.simplefilter("ignore")
-            res = apply_negop(how, ops, specs[name], holder)
+            res = apply_negop(how, ops, specs[name], holder, docs)
         accepted = True
     except (TypeError, ValueError) as e:
         accepted = False
@@ -753,6 +918,25 @@ def gen_gated(rng, name, spec, kind=None):
     return how
 
 
+def gen_route(rng, name, spec, src=None, route=None):
+    """contents arriving through an entry route: mostly those of `neg` (gated), sometimes those of `a` (valid in every mode),
+    rarely the unpinned negative-errors2 probe"""
+    how = {"slot": name, "op": "route", "how": route or rng.choice(routes_for(spec)),
+           "src": src or ("neg" if rng.random() < 0.85 else "a")}
+    if route is None and src is None and rng.random() < 0.05:
+        how.update(how="e2_neg", src="neg")
+    how["g"] = expect_negop(how, spec_operands(spec))["neg"] is True
+    return how
+
+
+def raises_of(items):
+    for it in items:
+        if it[0] == "with":
+            if it[3]:
+                yield it[3]
+            yield from raises_of(it[2])
+
+
 def NOGATE():
     return None
 
@@ -769,7 +953,7 @@ def make_env(specs=None):
     def f_off(cont):
         return cont()
 
-    return {"fns": {"on": f_on, "off": f_off}, "cms": {}, "gens": {}, "probes": [], "log": [], "specs": specs or {}, "slots": {}}
+    return {"fns": {"on": f_on, "off": f_off}, "cms": {}, "gens": {}, "probes": [], "log": [], "specs": specs or {}, "slots": {}, "docs": {}}
 
 
 def gen_block(v):
@@ -876,7 +1060,7 @@ def block_sync(it, gate, obs, tid, env):
         obs.append((tid, None))
         try:
             exec_sync(body, g2, obs, tid, env)
-        except Exception as e:
+        except BaseException as e:
             if not is_leave(e):
                 raise
             obs.append((tid, None))   # left by the exception of a nested block, in the same atomic step
@@ -908,12 +1092,13 @@ def block_sync(it, gate, obs, tid, env):
         next(g)
         try:
             inner()
-        except Exception as e:
+        except BaseException as e:
             if is_leave(e):
                 try:
                     g.throw(e)
-                except Exception:
-                    pass
+                except BaseException as e2:
+                    if e2 is not e and not isinstance(e2, (Exception, StopIteration)):
+                        raise
             raise
         finish_gen(g, form[4:])
     else:
@@ -954,7 +1139,7 @@ def run_threads(programs, order, spawn_parent, env=None):
         for it in programs[t]:
             try:
                 exec_sync([it], gate, obs, t, env)
-            except Exception as e:
+            except BaseException as e:
                 if not is_leave(e):
                     env["log"].append(["unexpected", t, repr(e)[:300]])
         if not state["first"][t]:
@@ -1044,7 +1229,7 @@ def run_tasks(programs, order, parent_of, env=None):
                 obs.append((t, None))
                 try:
                     await exec_items(body_items, t)
-                except Exception as e:
+                except BaseException as e:
                     if not is_leave(e):
                         raise
                     obs.append((t, None))
@@ -1071,12 +1256,13 @@ def run_tasks(programs, order, parent_of, env=None):
                 await g.__anext__()
                 try:
                     await inner()
-                except Exception as e:
+                except BaseException as e:
                     if is_leave(e):
                         try:
                             await g.athrow(e)
-                        except Exception:
-                            pass
+                        except BaseException as e2:
+                            if e2 is not e and not isinstance(e2, (Exception, StopAsyncIteration)):
+                                raise
                     raise
                 await finish_agen(g, form[4:])
             else:
@@ -1086,8 +1272,10 @@ def run_tasks(programs, order, parent_of, env=None):
             for it in programs[t]:
                 try:
                     await exec_items([it], t)
-                except Exception as e:
+                except BaseException as e:
                     if not is_leave(e):
+                        if not isinstance(e, Exception):
+                            raise           # a real cancellation / interrupt of the harness itself
                         env["log"].append(["unexpected", t, repr(e)[:300]])
             if not first[t]:
                 done.set()
@@ -1138,7 +1326,12 @@ def simple_items(rng, p_read=0.6, p_arith=0.35):
 
 
 def pick_raise(rng):
-    return True if rng.random() < 0.5 else "fail:" + rng.choice(FAIL_HOWS)
+    r = rng.random()
+    if r < 0.35:
+        return True
+    if r < 0.65:
+        return "fail:" + rng.choice(FAIL_HOWS)
+    return "base:" + rng.choice(BASE_EXITS)
 
 
 def chain(rng, levels, raise_at=None):
@@ -1181,11 +1374,12 @@ def interleavings(n0, n1):
 class C19:
     ID = "C19"
     GEN_TIE = ["config"]     # definitions regenerated from physt/config.py (harness/gen_tie.py)
-    N_QUICK = 256
+    N_QUICK = 288            # (256 before stream routes was added: the older streams keep their absolute numbers)
     N_THOROUGH = 4200
     N_SEARCH = 150
-    BASE_SHARE = 0.60        # the share of the original stream of random programs (>= 150 of the 256 quick cases)
-    NEG_SHARE = 0.14         # stream neg_state (~36 of the 256 quick cases); the four usage-form streams keep their ~66
+    BASE_SHARE = 0.535       # the share of the original stream of random programs (>= 150 of the 288 quick cases)
+    NEG_SHARE = 0.125        # stream neg_state (~36 of the 288 quick cases); the four usage-form streams keep their ~66
+    ROUTE_SHARE = 0.10       # stream routes (~29 of the 288 quick cases)
     RULE = ("programs of set / read / arithmetic-with-array / negative-contents / nested `with enable_free_arithmetics(v)` blocks "
             "(depth <= 4, bodies that raise at any depth) for 1-3 real threads or asyncio tasks (children spawned mid-program), run "
             "under a generated interleaving of their atomic steps (threads stepped by semaphores, tasks by events); every read and "
@@ -1207,6 +1401,18 @@ class C19:
             "content, accepted inside a block, leaves its operands alone, and a refused in-place form leaves its target alone; "
             "re-arrangements (copy, set_dtype, merge_bins, projection, slices, index, T) are recorded, accepted inside a block, not "
             "judged outside; a second context with the switch on does the same operations meanwhile (all accepted). "
+            "routes = every ENTRY route by which contents reach a histogram: the dict / JSON text / collection dict / xarray Dataset of "
+            "a histogram with negative contents are written inside the block that built it (to_dict / to_json / to_xarray there) and "
+            "read back by from_dict, io.create_from_dict, io.parse_json, io.load_json (scratch file under /var/tmp, removed), "
+            "HistogramCollection.from_dict, Histogram1D.from_xarray; its contents are fed to the constructor (frequencies= with "
+            "errors2=), to the frequencies setter of a fresh histogram, to from_calculate_frequencies(weights=) and to the facade "
+            "h1 / h2 / h(weights=) -- inside the block, inside a disabled block nested in it (any form), behind that, under the "
+            "setting, and after the block was left normally / by an Exception / by a BaseException: accepted iff the switch is on, "
+            "the switch reads the same before and after every route, operands untouched; the same routes with non-negative contents "
+            "(accepted everywhere, not judged) and x.errors2 = negative (refused everywhere, not judged) are recorded. "
+            "Bodies that end by raising leave the block by Boom, by a refusal of physt itself, or by an exception that is NOT an "
+            "Exception (KeyboardInterrupt, SystemExit, GeneratorExit, asyncio.CancelledError: tags exit:base:*), at any depth, in "
+            "every stream but base; exhaustive_base_exits = each of the four x depth <= 3 x raising level x ambient value. "
             "Thorough: all interleavings of small programs. "
             "non-trivial = at least two contexts with different values alive at once; distinct = hash of programs + schedule")
     ASSUMPTIONS = ["CPython's contextvars / threading / asyncio semantics (a new thread starts with an empty context, a task with a copy)",
@@ -1217,7 +1423,11 @@ class C19:
                    "(a negative partial sum must be refused outside a block); HistogramCollection.sum() is one operation (only its "
                    "result is pinned)",
                    "fill / fill_n with a negative weight outside a block is NOT generated (ENABLE_FILL_NEGATIVE_WEIGHT): the unchanged "
-                   "library accepts it and stores negative contents"]
+                   "library accepts it and stores negative contents",
+                   "document routes of an N-d histogram built by h +/- array are NOT generated (ENABLE_ND_ARRAY_BUILD_DOCUMENT_ROUTES): "
+                   "the unchanged library cannot read its own to_dict / to_json output there in any mode (missed = NaN, dtype int64)",
+                   "a BaseException raised by the body is caught by the harness outside the outermost block of the same context "
+                   "(the program goes on in that context, as after Ctrl-C in a REPL or a cancellation caught in the task)"]
     EXTRA_TRUST = ["the model cannot exhibit interpreter-level races; schedules are the interleavings of whole ContextVar operations",
                    "a call of a decorated function / an entered stored manager / ExitStack / generator block is presented to the model "
                    "as the enter ... exit pair of the context that performs it",
@@ -1230,8 +1440,10 @@ class C19:
         r = rng.random()
         if self.BASE_SHARE <= r < self.BASE_SHARE + self.NEG_SHARE:
             return self.gen_neg_state(rng)
+        if self.BASE_SHARE + self.NEG_SHARE <= r < self.BASE_SHARE + self.NEG_SHARE + self.ROUTE_SHARE:
+            return self.gen_routes(rng)
         if r >= self.BASE_SHARE:
-            r = (r - self.BASE_SHARE - self.NEG_SHARE) / (1 - self.BASE_SHARE - self.NEG_SHARE)
+            r = (r - self.BASE_SHARE - self.NEG_SHARE - self.ROUTE_SHARE) / (1 - self.BASE_SHARE - self.NEG_SHARE - self.ROUTE_SHARE)
             if r < 0.34:
                 return self.gen_decorator(rng)
             if r < 0.56:
@@ -1438,6 +1650,68 @@ class C19:
             programs[rng.randrange(2)].append(["arith", gen_gated(rng, src, slots[src])])
         return self.finish(rng, mode, programs, {}, stream="neg_state", slots=slots)
 
+    def gen_routes(self, rng):
+        """every ENTRY route by which contents reach a histogram, under both values of the switch: the carriers of a histogram
+        with negative contents are written inside the block that built it; they are read back (and the value routes fed with its
+        contents) inside the block, inside a disabled block nested in it, and after it has been left -- normally, by an
+        Exception, by a BaseException"""
+        mode = rng.choice(["single", "single", "single", "single", "threads", "tasks"])
+        n = 1 if mode == "single" else 2
+        slots, programs = {}, {}
+        forms = ["with", "with", "with", "stack", "stored", "gen", "adec"] + (["dec"] if mode != "tasks" else [])
+        off_forms = ["with", "with", "stack", "adec:off"] + (["dec:off"] if mode != "tasks" else [])
+        for t in range(n):
+            name = f"t{t}r0"
+            spec = slots[name] = gen_spec(rng)
+
+            def R(**kw):
+                return ["arith", gen_route(rng, name, spec, **kw)]
+            if t == 1 and rng.random() < 0.5:
+                # a bystander with the switch ON for itself: every route is accepted there, whatever the other context does
+                p = [["set", True], mk_item(name, spec), ["read"]] + [R() for _ in range(rng.randint(2, 4))]
+                if rng.random() < 0.5:
+                    p += [blk(False, [R(src="neg"), ["read"]], False), R(src="neg")]
+                programs[t] = p
+                continue
+            p = [["set", False]] if rng.random() < 0.3 else []
+            if rng.random() < 0.15:
+                p.append(R(src="neg"))                  # before any block was ever entered (operands built privately)
+            body = [["read"]] if rng.random() < 0.3 else []
+            body.append(mk_item(name, spec))
+            body += [R() for _ in range(rng.randint(1, 2))]                                 # accepted inside
+            if rng.random() < 0.6:
+                # a disabled block nested in the enabled one: refused there, accepted again behind it
+                inner = [R(src="neg") for _ in range(rng.randint(1, 2))] + ([["read"]] if rng.random() < 0.5 else [])
+                body.append(blk(False, inner, pick_raise(rng) if rng.random() < 0.2 else False, rng.choice(off_forms)))
+                if not body[-1][3]:
+                    body.append(R(src="neg"))
+            raises = pick_raise(rng) if rng.random() < 0.3 and not any(it[0] == "with" and it[3] for it in body) else False
+            form = rng.choice(forms)
+            if form == "stored":
+                form = f"stored:{10 * t}"
+            elif form == "gen":
+                form = "gen:" + rng.choice(["next", "close", "throw"])
+            elif form in ("dec", "adec"):
+                form += ":on"
+            block = blk(True, body, raises, form)
+            if rng.random() < 0.15:
+                block = blk(rng.random() < 0.5, [block, ["read"]], False)
+            p += [block, ["read"]]
+            routes = routes_for(spec)
+            rng.shuffle(routes)
+            for route in routes[:rng.randint(3, 5)]:                                        # outside: distinct routes
+                p.append(R(route=route, src="neg" if rng.random() < 0.9 else "a"))
+            if rng.random() < 0.12:
+                p.append(R(route="e2_neg", src="neg"))                                      # recorded, not judged
+            if rng.random() < 0.3:
+                p += [blk(False, [R(src="neg"), ["read"]], False, rng.choice(off_forms)), R(src="neg")]
+            if rng.random() < 0.25:
+                p += [["set", True], R(src="neg"), ["set", False], R(src="neg")]
+            if rng.random() < 0.3:
+                p.append(["read"])
+            programs[t] = p
+        return self.finish(rng, mode, programs, {}, stream="routes", slots=slots)
+
     def finish(self, rng, mode, programs, parent_of, order=None, stream=None, slots=None):
         acts = {t: linearize_top(p) for t, p in programs.items()}
         if order is None:
@@ -1516,6 +1790,53 @@ class C19:
                          {"t": 0, "op": "exit"}, {"t": 0, "op": "read"}], "tags": ["env_default"]}
         yield from self.exhaustive_forms(tier, rng)
         yield from self.exhaustive_neg_ops(tier, rng)
+        yield from self.exhaustive_base_exits(tier, rng)
+        yield from self.exhaustive_routes(tier, rng)
+
+    def exhaustive_base_exits(self, tier, rng):
+        """every exit that is not an Exception x every depth <= 3 x the level it is raised at x both ambient values (the
+        values of the blocks alternate, starting opposite to the ambient one), forms rotating; then a read and a gated operation"""
+        forms = ["with", "stack", "stored:0", "adec", "gen:next", "dec"]
+        k = 0
+        for kind in BASE_EXITS:
+            for depth in (1, 2, 3):
+                for raise_at in range(depth):
+                    for amb in (False, True):
+                        for mode in ("single", "tasks") if tier == "thorough" or depth < 3 else ("single",):
+                            item = None
+                            for i in reversed(range(depth)):
+                                v = (not amb) if i % 2 == 0 else amb
+                                k += 1
+                                form = forms[k % len(forms)]
+                                if form in ("adec", "dec"):
+                                    form = ("adec:" if mode == "tasks" else form + ":") + ("on" if v else "off")
+                                body = [["read"]] + ([item, ["read"]] if item is not None else [])
+                                item = blk(v, body, "base:" + kind if raise_at == i else False, form)
+                            p = {0: [["set", amb], item, ["read"], ["arith", "negative_factor"], ["arith", "array"]]}
+                            c = self.finish(rng, mode, p, {}, stream="exc_depth")
+                            c["tags"].append("exhaustive_base_exits")
+                            yield c
+
+    def exhaustive_routes(self, tier, rng):
+        """every class x every entry route: accepted inside the block in which `neg` and its carriers are made, refused inside a
+        disabled block nested in it, accepted behind that, refused after the block has been left"""
+        import random
+        forms = ["with", "stack", "stored:0", "gen:next", "adec:on", "dec:on"]
+        k = 0
+        for cls in ["h1", "h1f", "h2", "h3", "radial", "polar", "ad1", "ad2"]:
+            for build in (["mul_m1", "arr_add", "ctor"] if tier == "thorough" else ["mul_m1", "arr_add"]):
+                spec = gen_spec(random.Random(f"routex:{cls}:{build}"), cls, build)
+                for route in routes_for(spec):
+                    if build == "arr_add" and tier != "thorough" and len(spec["shape"]) == 1 and route not in ROUTES_1D_ONLY:
+                        continue
+                    how = {"slot": "s", "op": "route", "how": route, "src": "neg", "g": True}
+                    k += 1
+                    prog = {0: [blk(True, [mk_item("s", spec), ["arith", dict(how)], blk(False, [["arith", dict(how)], ["read"]], False),
+                                           ["arith", dict(how)]], False, forms[k % len(forms)]),
+                                ["read"], ["arith", dict(how)], ["read"]]}
+                    c = self.finish(rng, "single", prog, {}, stream="routes", slots={"s": spec})
+                    c["tags"].append("exhaustive_routes")
+                    yield c
 
     def exhaustive_neg_ops(self, tier, rng):
         """every class x every content-writing operation that yields negative contents: accepted inside the block in which the
@@ -1730,6 +2051,12 @@ class C19:
                 fails.append(f"operand_changed: thread {t}: `{text}` changed its operand `{k}`: contents {nums(d['before'][k])} -> "
                              f"{nums(d['after'][k])}, errors2 [{', '.join(d['before'][k]['e2'])}] -> [{', '.join(d['after'][k]['e2'])}]")
         ex = expect_negop(how, ops)
+        if "flag_before" in d and d["flag_before"] != d["flag"]:
+            fails.append(f"switch_changed: thread {t}: config.free_arithmetics read {d['flag_before']} before `{text}` and "
+                         f"{d['flag']} after it ({'accepted' if o['accepted'] else 'refused'})")
+        if known is not None and "flag_before" in d and d["flag_before"] != known:
+            fails.append(f"not_restored: thread {t}: config.free_arithmetics reads {d['flag_before']} just before `{text}` "
+                         f"where {known} was in force")
         if not any(v < 0 for v in ops["neg"]["f"]):
             return False            # (the operand carries no negative content: nothing of this class to judge)
         res = d.get("result")
@@ -1770,6 +2097,11 @@ class C19:
         out += sorted({"form:" + e["src"] for e in case["sched"] if "src" in e})
         if any(e.get("raised") for e in case["sched"]):
             out.append("exception_leaves_block")
+        for t, p in case["programs"].items():
+            for r in raises_of(p):
+                out.append("exit:" + (r if isinstance(r, str) else "Boom").split(":")[0])
+                if isinstance(r, str) and r.startswith("base:"):
+                    out.append("exit:" + r)
         for p in io.get("probes", []) if isinstance(io, dict) else []:
             out.append("reentry:" + ("entered" if p["entered"] else "refused"))
         if case.get("slots"):
@@ -1779,6 +2111,8 @@ class C19:
                 if not d or "how" not in d:
                     continue
                 kind = "rearr" if d["how"]["op"] in REARR_NEGOPS else ("negop" if e["op"] == "arith" else "negop_valid_result")
+                if d["how"].get("how") in ROUTES_UNPINNED:
+                    kind = "unpinned"
                 out.append(f"{kind}:{e['what']}:switch_{'on' if d['flag'] else 'off'}:{'accepted' if o['obs']['accepted'] else 'refused'}")
         return out
 
